@@ -532,7 +532,7 @@ fn exec(c: &Case) -> Vec<String> {
         .chain(c.header.iter())
         .fold(17u32, |h, w| w.bytes().fold(h, |h, b| h.wrapping_mul(31).wrapping_add(b as u32)));
     for attempt in 0..3 {
-        match run(job.clone(), &cfg, uniq, Duration::from_secs(20)) {
+        match run(job.clone(), &cfg, uniq, Duration::from_secs(20 * nvh::load_factor() as u64)) {
             Outcome::Done(mut res) => {
                 res.sort();
                 return res
